@@ -775,7 +775,9 @@ pub fn exec_reload(p: &ReloadPlan, trace: bool) -> Exec {
         for _ in 0..p.reloads.max(1) {
             let id_b = p256_identity();
             last_hash = id_b.certificate_chain().as_slice()[0].hash();
-            sep.reload_config(server_cfg(p.new_path, "127.0.0.1:1".parse().unwrap(), id_b, Some(30_000), None, true, r.seed32()), false).map_err(|e| format!("reload_config: {e:?}"))?;
+            // with rebind = false the new configuration's bind address is documented to be ignored:
+            // it names an address this host does not have, so any attempt to bind it fails
+            sep.reload_config(server_cfg(p.new_path, "203.0.113.7:1".parse().unwrap(), id_b, Some(30_000), None, true, r.seed32()), false).map_err(|e| format!("reload_config: {e:?}"))?;
         }
         let old_ok = echo(c1.clone(), b"after-reload-on-old-connection".to_vec()).await;
         let (cep2, _c2) = harness::client_on(&net, client_cfg(0, "10.0.0.5:50002".parse().unwrap(), None, Some(30_000), None, r.seed32()), "10.0.0.5:50002".parse().unwrap());
